@@ -8,14 +8,12 @@
 
   `obs` forgets the exception class: the property says "the same return value, or failure in both".
 
-  Predicates (Lemmas/RsPy.lean):
-    isCanonical tok      tok matches `+?[0-7]+` and its octal value is < 2^32
-    modeTokens n f text  the mode tokens met walking `text` entry by entry (to the first space; skip
-                         the name to NUL; skip n id bytes)
-    nameOk name          no NUL and no `/` in the name
-    modesU32 es          every mode is in 0 … 2^32-1
-    pathOk path          the path is empty or does not end with `/`
-    namesRelative es     no entry name starts with `/`
+  The models without suffix describe the code after the C15 repair series (findings/C15.jsonl, `fixed`);
+  the theorems about them are FULL equivalences.  The `…Old` models describe the code before the series;
+  the divergences it had are kept as `decide`d regression witnesses (`…_old_…`), next to the same inputs
+  on the repaired models.
+
+  Predicate (Lemmas/RsPy.lean):  modesU32 es  — every mode is in 0 … 2^32-1
 -/
 import DulwichModel.Lemmas.RsPy
 import DulwichModel.Props.C03
@@ -72,38 +70,31 @@ example : applyDeltaRs [1, 2, 3, 4] (rsCreateDelta [1, 2, 3, 4] [.copy 1 2, .ins
   simp only [opsTarget] at h
   exact ⟨h.2.2.2, h.1⟩
 
-/-! ## 2. mode tokens: Python `int(tok, 8)` vs Rust `u32::from_str_radix(tok, 8)` -/
+/-! ## 2. mode tokens: Python `[0-7]+`, `int(tok, 8)`, `≤ 0xFFFFFFFF` vs Rust no leading `+`, `u32::from_str_radix(tok, 8)` -/
 
-/-- Whatever Rust accepts, Python accepts with the same value (any token, any strictness). -/
-theorem mode_token_rs_refines_py (strict : Bool) (tok : Bytes) (v : Int)
-    (h : rsTok strict tok = some v) : pyTok strict tok = some v := rsTok_pyTok h
+/-- **The two mode parsers agree on EVERY token**, strict or not: the same value, or rejection in both. -/
+theorem mode_token_equiv (strict : Bool) (tok : Bytes) :
+    rsTokG rsModeTok strict tok = pyTokG pyModeTok strict tok := tokG_agree strict tok
 
-/-- **Exact agreement condition.**  The two mode parsers agree on a token iff Python rejects it or it is
-canonical (`+?[0-7]+`, value < 2^32).  Everything else — sign `-`, surrounding whitespace, `0o` prefix,
-underscores, ≥ 2^32 — is accepted by Python only. -/
-theorem mode_token_agree_iff (strict : Bool) (tok : Bytes) :
-    rsTok strict tok = pyTok strict tok ↔ (pyTok strict tok = none ∨ isCanonical tok = true) := by
-  constructor
-  · intro h
-    cases hp : pyTok strict tok with
-    | none => exact Or.inl rfl
-    | some v => rw [hp] at h; exact Or.inr (rsTok_canonical h)
-  · rintro (h | h)
-    · cases hr : rsTok strict tok with
-      | none => rw [h]
-      | some v => rw [rsTok_pyTok hr] at h; cases h
-    · exact tok_canonical_eq strict h
+/-- After the pattern check Python's `int(tok, 8)` cannot raise (it is not guarded any more). -/
+theorem mode_token_int_total (tok : Bytes) (h : pyModeRegex tok = true) : (pyInt 8 tok).isSome = true := by
+  rw [pyInt_of_regex h]; rfl
 
-/-- Non-vacuity / meaning of `isCanonical`. -/
-example : isCanonical (asciiBytes "100644") = true ∧ isCanonical (asciiBytes "+0644") = true ∧
-    isCanonical (asciiBytes "37777777777") = true ∧ isCanonical (asciiBytes "40000000000") = false ∧
-    isCanonical (asciiBytes "-644") = false ∧ isCanonical (asciiBytes "0o644") = false ∧
-    isCanonical (asciiBytes "6_44") = false ∧ isCanonical [] = false ∧ isCanonical (asciiBytes "+") = false := by
+/-- Non-vacuity: accepted and rejected tokens (both sides computed). -/
+example :
+    pyModeTok (asciiBytes "100644") = some 33188 ∧ rsModeTok (asciiBytes "100644") = some 33188 ∧
+    pyModeTok (asciiBytes "37777777777") = some 4294967295 ∧ rsModeTok (asciiBytes "37777777777") = some 4294967295 ∧
+    pyModeTok (asciiBytes "000000000000000644") = some 420 ∧ rsModeTok (asciiBytes "000000000000000644") = some 420 ∧
+    pyModeTok (asciiBytes "+644") = none ∧ rsModeTok (asciiBytes "+644") = none ∧
+    pyModeTok (asciiBytes "-644") = none ∧ rsModeTok (asciiBytes "-644") = none ∧
+    pyModeTok (asciiBytes "0o644") = none ∧ pyModeTok (asciiBytes "6_44") = none ∧ pyModeTok [9, 54, 52, 52] = none ∧
+    pyModeTok [54, 52, 52, 10] = none ∧ pyModeTok (asciiBytes "40000000000") = none ∧ rsModeTok (asciiBytes "40000000000") = none ∧
+    pyModeTok (asciiBytes "648") = none ∧ pyModeTok [] = none ∧ rsModeTok [] = none := by
   decide
 
-/-- **Divergence table (F15)**: tokens Python's `int(b, 8)` accepts and Rust rejects — each confirmed on
-the real pair of implementations by the harness (corpus/C15/parse_mode_*.json, stream tree.parse). -/
-theorem mode_token_divergence_witnesses :
+/-- **Regression witnesses (F15, fixed)**: what the parsers did before the repair — Python's `int(b, 8)`
+accepted these tokens, Rust rejected them; Rust accepted a leading `+`. -/
+theorem mode_token_old_divergence_witnesses :
     pyInt 8 (asciiBytes "-644") = some (-420) ∧ rsFromStrRadix 8 32 (asciiBytes "-644") = none ∧
     pyInt 8 [9, 54, 52, 52] = some 420 ∧ rsFromStrRadix 8 32 [9, 54, 52, 52] = none ∧          -- "\t644"
     pyInt 8 [54, 52, 52, 10] = some 420 ∧ rsFromStrRadix 8 32 [54, 52, 52, 10] = none ∧        -- "644\n"
@@ -112,126 +103,63 @@ theorem mode_token_divergence_witnesses :
     pyInt 8 (asciiBytes "6_44") = some 420 ∧ rsFromStrRadix 8 32 (asciiBytes "6_44") = none ∧
     pyInt 8 (asciiBytes "-0") = some 0 ∧ rsFromStrRadix 8 32 (asciiBytes "-0") = none ∧
     pyInt 8 (asciiBytes "40000000000") = some 4294967296 ∧ rsFromStrRadix 8 32 (asciiBytes "40000000000") = none ∧
-    pyInt 8 (asciiBytes "777777777777") = some 68719476735 ∧ rsFromStrRadix 8 32 (asciiBytes "777777777777") = none := by
-  decide
-
-/-- … and look-alikes on which they do agree (both reject, or both accept). -/
-theorem mode_token_agreement_witnesses :
-    pyInt 8 (asciiBytes " 644") = some 420 ∧                      -- never a token: parse_tree splits at the space
-    pyInt 8 (asciiBytes "+644") = some 420 ∧ rsFromStrRadix 8 32 (asciiBytes "+644") = some 420 ∧
-    pyInt 8 (asciiBytes "_644") = none ∧ pyInt 8 (asciiBytes "644_") = none ∧ pyInt 8 (asciiBytes "6__44") = none ∧
-    pyInt 8 (asciiBytes "0o") = none ∧ pyInt 8 (asciiBytes "648") = none ∧ pyInt 8 (asciiBytes "+-1") = none ∧
-    pyInt 8 [54, 0, 52] = none ∧ pyInt 8 [] = none ∧ rsFromStrRadix 8 32 [] = none ∧
-    pyInt 8 (asciiBytes "37777777777") = some 4294967295 ∧ rsFromStrRadix 8 32 (asciiBytes "37777777777") = some 4294967295 ∧
-    pyInt 8 (asciiBytes "000000000000000644") = some 420 ∧ rsFromStrRadix 8 32 (asciiBytes "000000000000000644") = some 420 := by
+    pyInt 8 (asciiBytes "777777777777") = some 68719476735 ∧ rsFromStrRadix 8 32 (asciiBytes "777777777777") = none ∧
+    pyInt 8 (asciiBytes "+644") = some 420 ∧ rsFromStrRadix 8 32 (asciiBytes "+644") = some 420 := by
   decide
 
 /-! ## 3. parse_tree -/
 
-/-- **Rust refines Python** on every payload, both id lengths, strict on or off: when the Rust parser
-returns entries, the Python parser returns the same entries.  (So the only possible divergence is
-"Python returns, Rust raises".) -/
-theorem parse_tree_rs_refines_py (text : Bytes) (n : Nat) (hn : n = 20 ∨ n = 32) (strict : Bool)
-    (r : List TreeEntry) (h : parseTreeRs text (some n) strict = .ok r) :
-    parseTreePy text (some n) strict = .ok r := by
-  have := rsLoop_refines_pyLoop text n hn strict (text.length + 1) 0 r (Nat.zero_le _)
-  simp only [List.drop_zero] at this
-  exact this h
-
-/-- Full statement (false on the unchanged code, see the counterexample below). -/
-def ParseTreeEquivStatement : Prop :=
-  ∀ (text : Bytes) (n : Nat) (strict : Bool), n = 20 ∨ n = 32 →
-    obs (parseTreeRs text (some n) strict) = obs (parseTreePy text (some n) strict)
-
-/-- **parse_tree: Rust ≡ Python** (same entries, or failure in both) for every payload whose mode tokens
-are canonical — valid or not otherwise: missing terminators, truncated ids, leading zeros under
-`strict`, both id lengths.  The hypothesis is exactly where they diverge (`mode_token_agree_iff`). -/
-theorem parse_tree_equiv_partial (text : Bytes) (n : Nat) (hn : n = 20 ∨ n = 32) (strict : Bool)
-    (h : ∀ t ∈ modeTokens n (text.length + 1) text, isCanonical t = true) :
+/-- **parse_tree: Rust ≡ Python on EVERY payload** — the same entries, or failure in both — for both id
+lengths, strict on or off: any mode tokens, missing terminators, truncated ids, junk. -/
+theorem parse_tree_equiv (text : Bytes) (n : Nat) (hn : n = 20 ∨ n = 32) (strict : Bool) :
     obs (parseTreeRs text (some n) strict) = obs (parseTreePy text (some n) strict) := by
-  have := loops_obs_eq text n hn strict (text.length + 1) 0 (Nat.zero_le _)
+  have := loopsG_obs_eq pyModeTok rsModeOf rsModeTok rsModeOf_zero (by decide) rsModeOf_tok tokG_agree
+    text n hn strict (text.length + 1) 0 (Nat.zero_le _)
   simp only [List.drop_zero] at this
-  exact this h
-
-/-- **Exact divergence class of parse_tree.**  The two parsers give different observable results on a
-payload iff the Python parser returns entries and some mode token it met is not canonical.  (In
-particular every other malformation — missing terminators, truncated ids, empty tokens, digits 8/9,
-junk bytes, leading zeros under `strict` — is handled identically.) -/
-theorem parse_tree_diverges_iff (text : Bytes) (n : Nat) (hn : n = 20 ∨ n = 32) (strict : Bool) :
-    obs (parseTreeRs text (some n) strict) ≠ obs (parseTreePy text (some n) strict) ↔
-      (∃ r, parseTreePy text (some n) strict = .ok r) ∧
-      ∃ t ∈ modeTokens n (text.length + 1) text, isCanonical t = false := by
-  constructor
-  · intro hne
-    have hex : ∃ t ∈ modeTokens n (text.length + 1) text, isCanonical t = false := by
-      apply Classical.byContradiction
-      intro hno
-      apply hne
-      apply parse_tree_equiv_partial text n hn strict
-      intro t ht
-      cases hc : isCanonical t with
-      | true => rfl
-      | false => exact absurd ⟨t, ht, hc⟩ hno
-    refine ⟨?_, hex⟩
-    cases hr : parseTreeRs text (some n) strict with
-    | ok r => rw [hr, parse_tree_rs_refines_py text n hn strict r hr] at hne; exact absurd rfl hne
-    | error e =>
-      cases hp : parseTreePy text (some n) strict with
-      | ok r => exact ⟨r, rfl⟩
-      | error e2 => rw [hr, hp] at hne; exact absurd rfl hne
-  · rintro ⟨⟨r, hp⟩, t, ht, hc⟩ heq
-    cases hr : parseTreeRs text (some n) strict with
-    | ok r2 =>
-      have := rsLoop_ok_tokens n strict (text.length + 1) text r2 hr t ht
-      rw [hc] at this; cases this
-    | error e => rw [hr, hp] at heq; cases heq
+  exact this
 
 /-- The loop bounds in the models are never reached: both parsers are total functions of the payload. -/
 theorem parse_tree_fuel (text : Bytes) (n : Nat) (hn : n = 20 ∨ n = 32) (strict : Bool) :
     parseTreeRs text (some n) strict ≠ .error .fuel ∧ parseTreePy text (some n) strict ≠ .error .fuel := by
   constructor
-  · exact rsLoop_fuel n strict (text.length + 1) text (by omega)
-  · exact pyLoop_fuel text n hn strict (text.length + 1) 0 (Nat.zero_le _) (by omega)
+  · exact rsLoopG_fuel rsModeOf rsModeTok rsModeOf_zero (by decide) rsModeOf_tok n strict (text.length + 1) text (by omega)
+  · exact pyLoopG_fuel pyModeTok text n hn strict (text.length + 1) 0 (Nat.zero_le _) (by omega)
 
 /-- one entry `tok ++ " a\0" ++ <20 id bytes>` -/
 def entry20 (tok : Bytes) : Bytes :=
   tok ++ [32, 97, 0] ++ [1, 2, 3, 4, 5, 6, 7, 8, 9, 10, 11, 12, 13, 14, 15, 16, 17, 18, 19, 20]
 
-/-- Non-vacuity: a two-entry payload with canonical tokens parses identically (and non-trivially);
-truncating it fails in both. -/
+/-- Non-vacuity: a two-entry payload parses identically (and non-trivially); truncating it fails in both;
+the formerly divergent tokens are now rejected by both. -/
 example :
-    (∀ t ∈ modeTokens 20 100 (entry20 (asciiBytes "100644") ++ entry20 (asciiBytes "40000")), isCanonical t = true) ∧
     (parseTreeRs (entry20 (asciiBytes "100644") ++ entry20 (asciiBytes "40000")) (some 20) false).toOption.map List.length = some 2 ∧
+    parseTreeRs (entry20 (asciiBytes "100644") ++ entry20 (asciiBytes "40000")) (some 20) true
+      = parseTreePy (entry20 (asciiBytes "100644") ++ entry20 (asciiBytes "40000")) (some 20) true ∧
     obs (parseTreeRs ((entry20 (asciiBytes "100644")).take 25) (some 20) false) = none ∧
-    obs (parseTreePy ((entry20 (asciiBytes "100644")).take 25) (some 20) false) = none := by
+    obs (parseTreePy ((entry20 (asciiBytes "100644")).take 25) (some 20) false) = none ∧
+    obs (parseTreePy (entry20 (asciiBytes "-644")) (some 20) false) = none ∧
+    obs (parseTreePy (entry20 (asciiBytes "0o644")) (some 20) false) = none ∧
+    obs (parseTreeRs (entry20 (asciiBytes "+644")) (some 20) false) = none := by
   decide
 
-/-- **Negation witness (F15)**: mode token `-644` — Python returns the entry with mode −420, Rust raises. -/
-theorem parse_tree_equiv_counterexample : ¬ ParseTreeEquivStatement := by
-  intro h
-  have := h (entry20 (asciiBytes "-644")) 20 false (Or.inl rfl)
-  revert this
-  decide
-
-/-- The same payload family on the models, token by token: Python result vs Rust result. -/
-theorem parse_tree_divergence_witnesses :
-    (obs (parseTreePy (entry20 (asciiBytes "-644")) (some 20) false)).isSome ∧ obs (parseTreeRs (entry20 (asciiBytes "-644")) (some 20) false) = none ∧
-    (obs (parseTreePy (entry20 [9, 54, 52, 52]) (some 20) true)).isSome ∧ obs (parseTreeRs (entry20 [9, 54, 52, 52]) (some 20) true) = none ∧
-    (obs (parseTreePy (entry20 (asciiBytes "0o644")) (some 20) false)).isSome ∧ obs (parseTreeRs (entry20 (asciiBytes "0o644")) (some 20) false) = none ∧
-    (obs (parseTreePy (entry20 (asciiBytes "6_44")) (some 20) true)).isSome ∧ obs (parseTreeRs (entry20 (asciiBytes "6_44")) (some 20) true) = none ∧
-    (obs (parseTreePy (entry20 (asciiBytes "777777777777")) (some 20) false)).isSome ∧ obs (parseTreeRs (entry20 (asciiBytes "777777777777")) (some 20) false) = none ∧
-    -- under `strict` the `0o` prefix is caught by the leading-zero check on both sides
-    obs (parseTreePy (entry20 (asciiBytes "0o644")) (some 20) true) = none ∧
-    -- a leading space is an empty token: both fail
-    obs (parseTreePy (entry20 (asciiBytes " 644")) (some 20) false) = none ∧ obs (parseTreeRs (entry20 (asciiBytes " 644")) (some 20) false) = none := by
+/-- **Regression witnesses (F15, fixed)** on the pre-repair models: Python returned entries (negative and
+> 32-bit modes among them) where Rust raised. -/
+theorem parse_tree_old_divergence_witnesses :
+    (obs (parseTreePyOld (entry20 (asciiBytes "-644")) (some 20) false)).isSome ∧ obs (parseTreeRsOld (entry20 (asciiBytes "-644")) (some 20) false) = none ∧
+    (obs (parseTreePyOld (entry20 [9, 54, 52, 52]) (some 20) true)).isSome ∧ obs (parseTreeRsOld (entry20 [9, 54, 52, 52]) (some 20) true) = none ∧
+    (obs (parseTreePyOld (entry20 (asciiBytes "0o644")) (some 20) false)).isSome ∧ obs (parseTreeRsOld (entry20 (asciiBytes "0o644")) (some 20) false) = none ∧
+    (obs (parseTreePyOld (entry20 (asciiBytes "6_44")) (some 20) true)).isSome ∧ obs (parseTreeRsOld (entry20 (asciiBytes "6_44")) (some 20) true) = none ∧
+    (obs (parseTreePyOld (entry20 (asciiBytes "777777777777")) (some 20) false)).isSome ∧ obs (parseTreeRsOld (entry20 (asciiBytes "777777777777")) (some 20) false) = none ∧
+    -- `+644` was accepted by both (git rejects it); now by neither
+    (obs (parseTreeRsOld (entry20 (asciiBytes "+644")) (some 20) false)).isSome := by
   decide
 
 /-! ## 4. sorted_tree_items -/
 
-/-- **Tree order.**  For ALL byte-string names without NUL and `/` and all 32-bit modes, the Rust
+/-- **Tree order.**  For ALL byte-string names (NUL and `/` included) and all 32-bit modes, the Rust
 comparator `cmp_with_suffix` is the lexicographic order of the Python keys (`name`, or `name + "/"`
 for directories). -/
-theorem tree_order_equiv (a b : TreeEntry) (ha : nameOk a.name) (hb : nameOk b.name)
+theorem tree_order_equiv (a b : TreeEntry)
     (hma : 0 ≤ a.mode ∧ a.mode < 2 ^ 32) (hmb : 0 ≤ b.mode ∧ b.mode < 2 ^ 32) :
     ∃ ka kb, pyKeyEntry a = .ok ka ∧ pyKeyEntry b = .ok kb ∧
       rsCmpWithSuffix (a.mode.toNat, a.name) (b.mode.toNat, b.name) = cmpBytes ka kb := by
@@ -239,95 +167,122 @@ theorem tree_order_equiv (a b : TreeEntry) (ha : nameOk a.name) (hb : nameOk b.n
   refine ⟨pyKeyOf (rsObjIsDir a.mode.toNat) a.name, pyKeyOf (rsObjIsDir b.mode.toNat) b.name, ?_, ?_, ?_⟩
   · simp only [pyKeyEntry, pyIsDir_ok hma, pyKeyOf, e1]
   · simp only [pyKeyEntry, pyIsDir_ok hmb, pyKeyOf, e1]
-  · exact cmp_suffix_eq _ _ _ _ ha hb
+  · exact cmp_suffix_eq _ _ _ _
 
-/-- Non-vacuity: directory `a` against file `a.` and file `a0` (`.` < `/` < `0`): the hypotheses hold and the
-order is the one git uses. -/
-example : nameOk [97] ∧ nameOk [97, 46] ∧ nameOk [97, 48] ∧
+/-- Non-vacuity: directory `a` against file `a.` and file `a0` (`.` < `/` < `0`), and against the names
+the old comparator got wrong: file `a/b` (`a/` < `a/b`), file `a\0`. -/
+example :
     rsCmpWithSuffix (16384, [97]) (33188, [97, 46]) = .gt ∧ rsCmpWithSuffix (16384, [97]) (33188, [97, 48]) = .lt ∧
-    rsCmpWithSuffix (33188, [97]) (33188, [97, 46]) = .lt := by
-  refine ⟨by simp [nameOk], by simp [nameOk], by simp [nameOk], by decide, by decide, by decide⟩
+    rsCmpWithSuffix (33188, [97]) (33188, [97, 46]) = .lt ∧
+    rsCmpWithSuffix (16384, [97]) (33188, [97, 47, 98]) = .lt ∧ rsCmpWithSuffixOld (16384, [97]) (33188, [97, 47, 98]) = .eq ∧
+    rsCmpWithSuffix (33188, [97]) (33188, [97, 0]) = .lt ∧ rsCmpWithSuffixOld (33188, [97]) (33188, [97, 0]) = .eq := by
+  decide
 
-def SortedTreeItemsEquivStatement : Prop :=
-  ∀ (es : List TreeEntry) (nameOrder : Bool),
-    obs (sortedTreeItemsRs es nameOrder) = obs (sortedTreeItemsPy es nameOrder)
+/-- **sorted_tree_items: Rust ≡ Python on EVERY entry dictionary** (any size, any insertion order, any
+names, any integer modes), in both orders: the same list, or failure in both. -/
+theorem sorted_tree_items_equiv (es : List TreeEntry) (nameOrder : Bool) :
+    obs (sortedTreeItemsRs es nameOrder) = obs (sortedTreeItemsPy es nameOrder) := sorted_obs_eq es nameOrder
 
-/-- **sorted_tree_items: Rust ≡ Python** for every entry dictionary (any size, any insertion order, names
-that are prefixes of one another, file/directory twins …) whose modes are 32-bit and — in tree order —
-whose names contain neither NUL nor `/`; in name order no condition on names at all. -/
-theorem sorted_tree_items_equiv_partial (es : List TreeEntry) (nameOrder : Bool) (hm : modesU32 es)
-    (hn : nameOrder = false → ∀ e ∈ es, nameOk e.name) :
-    sortedTreeItemsRs es nameOrder = sortedTreeItemsPy es nameOrder := sorted_eq es nameOrder hm hn
+/-- … with identical results, exception class included, in name order (a mode outside 0 … 2^32-1 is a
+`TypeError` in both) and whenever all modes are 32-bit. -/
+theorem sorted_tree_items_equiv_exact (es : List TreeEntry) (nameOrder : Bool)
+    (h : nameOrder = true ∨ modesU32 es) :
+    sortedTreeItemsRs es nameOrder = sortedTreeItemsPy es nameOrder := by
+  rcases h with h | h
+  · subst h; exact sorted_eq_name_order es
+  · exact sorted_eq_u32 es nameOrder h
 
 def H40 : Bytes := List.replicate 40 97
 
-/-- Non-vacuity: the prefix family `a`, `a.`, `a-`, `a0`, `ab` with `a` once as file and once as directory
-(as two dictionaries) sorts identically and differently for the two kinds. -/
+/-- Non-vacuity: the prefix family `a`, `a.`, `a-`, `a0` with `a` once as directory and once as file;
+`{a/b: file, a: dir}` and `{a\0, a}` now come back in key order from Rust too. -/
 example :
     sortedTreeItemsRs [⟨[97, 48], 33188, H40⟩, ⟨[97], 16384, H40⟩, ⟨[97, 46], 33188, H40⟩, ⟨[97, 45], 33188, H40⟩] false
       = .ok [⟨[97, 45], 33188, H40⟩, ⟨[97, 46], 33188, H40⟩, ⟨[97], 16384, H40⟩, ⟨[97, 48], 33188, H40⟩] ∧
     sortedTreeItemsPy [⟨[97, 48], 33188, H40⟩, ⟨[97], 33188, H40⟩, ⟨[97, 46], 33188, H40⟩, ⟨[97, 45], 33188, H40⟩] false
-      = .ok [⟨[97], 33188, H40⟩, ⟨[97, 45], 33188, H40⟩, ⟨[97, 46], 33188, H40⟩, ⟨[97, 48], 33188, H40⟩] := by
+      = .ok [⟨[97], 33188, H40⟩, ⟨[97, 45], 33188, H40⟩, ⟨[97, 46], 33188, H40⟩, ⟨[97, 48], 33188, H40⟩] ∧
+    sortedTreeItemsRs [⟨[97, 47, 98], 33188, H40⟩, ⟨[97], 16384, H40⟩] false = .ok [⟨[97], 16384, H40⟩, ⟨[97, 47, 98], 33188, H40⟩] ∧
+    sortedTreeItemsRs [⟨[97, 0], 33188, H40⟩, ⟨[97], 33188, H40⟩] false = .ok [⟨[97], 33188, H40⟩, ⟨[97, 0], 33188, H40⟩] ∧
+    sortedTreeItemsPy [⟨[97], 4294967296, H40⟩] true = .error .type ∧ sortedTreeItemsRs [⟨[97], 4294967296, H40⟩] true = .error .type := by
   decide
 
-/-- **Negation witnesses**: (1) `{a/b: file, a: dir}` — Python puts the directory first (`a/` < `a/b`), the
-Rust comparator looks one byte past the common prefix, says Equal, and the stable sort keeps dictionary
-order; (2) `{a\0: file, a: file}` — the `0` "no suffix" sentinel collides with a real NUL;
-(3) name order with mode 2^32 — Python returns, Rust raises `TypeError`. -/
-theorem sorted_tree_items_counterexamples :
-    sortedTreeItemsPy [⟨[97, 47, 98], 33188, H40⟩, ⟨[97], 16384, H40⟩] false = .ok [⟨[97], 16384, H40⟩, ⟨[97, 47, 98], 33188, H40⟩] ∧
-    sortedTreeItemsRs [⟨[97, 47, 98], 33188, H40⟩, ⟨[97], 16384, H40⟩] false = .ok [⟨[97, 47, 98], 33188, H40⟩, ⟨[97], 16384, H40⟩] ∧
-    sortedTreeItemsPy [⟨[97, 0], 33188, H40⟩, ⟨[97], 33188, H40⟩] false = .ok [⟨[97], 33188, H40⟩, ⟨[97, 0], 33188, H40⟩] ∧
-    sortedTreeItemsRs [⟨[97, 0], 33188, H40⟩, ⟨[97], 33188, H40⟩] false = .ok [⟨[97, 0], 33188, H40⟩, ⟨[97], 33188, H40⟩] ∧
-    sortedTreeItemsPy [⟨[97], 4294967296, H40⟩] true = .ok [⟨[97], 4294967296, H40⟩] ∧
-    sortedTreeItemsRs [⟨[97], 4294967296, H40⟩] true = .error .type ∧
-    -- tree order with such a mode fails in both (OverflowError / TypeError)
-    obs (sortedTreeItemsPy [⟨[97], 4294967296, H40⟩] false) = none ∧ obs (sortedTreeItemsRs [⟨[97], 4294967296, H40⟩] false) = none := by
-  decide
-
-theorem sorted_tree_items_equiv_counterexample : ¬ SortedTreeItemsEquivStatement := by
-  intro h
-  have := h [⟨[97, 47, 98], 33188, H40⟩, ⟨[97], 16384, H40⟩] false
-  revert this
+/-- **Regression witnesses (fixed)** on the pre-repair models: (1) `{a/b: file, a: dir}` — Python put the
+directory first, the old Rust comparator said Equal and the stable sort kept dictionary order;
+(2) `{a\0: file, a: file}` — the `0` "no suffix" sentinel collided with a real NUL; (3) name order with
+mode 2^32 — Python returned, Rust raised `TypeError`. -/
+theorem sorted_tree_items_old_counterexamples :
+    sortedTreeItemsPyOld [⟨[97, 47, 98], 33188, H40⟩, ⟨[97], 16384, H40⟩] false = .ok [⟨[97], 16384, H40⟩, ⟨[97, 47, 98], 33188, H40⟩] ∧
+    sortedTreeItemsRsOld [⟨[97, 47, 98], 33188, H40⟩, ⟨[97], 16384, H40⟩] false = .ok [⟨[97, 47, 98], 33188, H40⟩, ⟨[97], 16384, H40⟩] ∧
+    sortedTreeItemsPyOld [⟨[97, 0], 33188, H40⟩, ⟨[97], 33188, H40⟩] false = .ok [⟨[97], 33188, H40⟩, ⟨[97, 0], 33188, H40⟩] ∧
+    sortedTreeItemsRsOld [⟨[97, 0], 33188, H40⟩, ⟨[97], 33188, H40⟩] false = .ok [⟨[97, 0], 33188, H40⟩, ⟨[97], 33188, H40⟩] ∧
+    sortedTreeItemsPyOld [⟨[97], 4294967296, H40⟩] true = .ok [⟨[97], 4294967296, H40⟩] ∧
+    sortedTreeItemsRsOld [⟨[97], 4294967296, H40⟩] true = .error .type := by
   decide
 
 /-! ## 5. bisect_find_sha -/
 
-def BisectEquivStatement : Prop :=
-  ∀ (unpack : Int → Except Exc Bytes) (sha : Bytes) (s e : Int), sha.length = 20 ∨ sha.length = 32 →
-    obs (bisectRs unpack sha s e) = obs (bisectPy unpack sha s e)
-
-/-- **bisect_find_sha: Rust ≡ Python** for `0 ≤ start ≤ end < 2^30`, every probe of an id length, EVERY
-callback returning ids (or failing) — sorted table or not: same index, same `None`, same exception from
-the callback. -/
+/-- **bisect_find_sha: Rust ≡ Python for ALL integer bounds**, every probe of an id length and EVERY
+callback returning ids (or failing) — sorted table or not: the same index, the same `None`, or failure
+in both (negative start, start > end, bounds that are not index-sized).  No Rust arithmetic can
+overflow (the model's panic branches are unreachable: they would show as a difference here). -/
 theorem bisect_equiv (unpack : Int → Except Exc Bytes) (sha : Bytes) (s e : Int)
     (hsha : sha.length = 20 ∨ sha.length = 32)
-    (hun : ∀ i r, unpack i = .ok r → r.length = 20 ∨ r.length = 32)
-    (h0 : 0 ≤ s) (hse : s ≤ e) (he : e < 2 ^ 30) :
-    bisectRs unpack sha s e = bisectPy unpack sha s e := by
-  have eb : Gen.rsBisectBits = 32 := rfl
+    (hun : ∀ i r, unpack i = .ok r → r.length = 20 ∨ r.length = 32) :
+    obs (bisectRs unpack sha s e) = obs (bisectPy unpack sha s e) := by
+  have eb : Gen.rsBisectBits = 64 := rfl
   have el : Gen.rsBisectShaLens = [20, 32] := rfl
-  have hs : inSigned 32 s = true := (inSigned32 _).2 (by omega)
-  have he' : inSigned 32 e = true := (inSigned32 _).2 (by omega)
+  have em : Gen.pyMaxsize = 9223372036854775807 := rfl
   have hmem : sha.length ∈ [20, 32] := by rcases hsha with h | h <;> simp [h]
-  have hgt : ¬ s > e := by omega
-  simp only [bisectRs, bisectPy, eb, el, hs, he', hmem, hgt, hse, not_true_eq_false, or_self, if_false, if_true]
-  exact bisectLoop_eq unpack sha hun _ s e h0 (by omega) (by omega) he
+  simp only [bisectRs, bisectPy, eb, el, em, hmem, not_true_eq_false, if_false]
+  by_cases hs : inSigned 64 s = true
+  · by_cases he : inSigned 64 e = true
+    · have hs' := (inSigned64 s).1 hs
+      have he' := (inSigned64 e).1 he
+      simp only [hs, he, not_true_eq_false, or_self, if_false]
+      by_cases h0 : s < 0
+      · simp only [h0, if_true]
+      · by_cases hgt : s > e
+        · simp only [h0, hgt, if_true, if_false]
+        · have hmax : ¬ e > 9223372036854775807 := by omega
+          simp only [h0, hgt, hmax, if_false]
+          rw [bisectLoop_eq unpack sha hun _ s e (by omega) (by omega) (by omega) (by omega)
+            (by simp only [bisectFuel]; omega)]
+    · -- `end` is not index-sized: OverflowError at the Rust call boundary; Python fails one of its three checks
+      have he' : ¬ (-9223372036854775808 ≤ e ∧ e < 9223372036854775808) := fun h => he ((inSigned64 e).2 h)
+      have hs' := (inSigned64 s).1 hs
+      simp only [hs, he, not_true_eq_false, Bool.false_eq_true, not_false_eq_true, or_true, if_true]
+      by_cases h0 : s < 0
+      · simp only [h0, if_true, obs]
+      · by_cases hgt : s > e
+        · simp only [h0, hgt, if_true, if_false, obs]
+        · have hmax : e > 9223372036854775807 := by omega
+          simp only [h0, hgt, hmax, if_true, if_false, obs]
+  · have hs' : ¬ (-9223372036854775808 ≤ s ∧ s < 9223372036854775808) := fun h => hs ((inSigned64 s).2 h)
+    simp only [hs, Bool.false_eq_true, not_false_eq_true, true_or, if_true]
+    by_cases h0 : s < 0
+    · simp only [h0, if_true, obs]
+    · by_cases hgt : s > e
+      · simp only [h0, hgt, if_true, if_false, obs]
+      · have hmax : e > 9223372036854775807 := by omega
+        simp only [h0, hgt, hmax, if_true, if_false, obs]
 
-/-- `start > end` fails in both (`AssertionError` / `ValueError`) for bounds that fit `i32`; the probe
-length is not looked at by Python, so it is required here. -/
-theorem bisect_start_gt_end_both_fail (unpack : Int → Except Exc Bytes) (sha : Bytes) (s e : Int) (h : e < s) :
-    obs (bisectPy unpack sha s e) = none ∧ obs (bisectRs unpack sha s e) = none := by
-  constructor
-  · have : ¬ s ≤ e := by omega
-    simp only [bisectPy, this, not_false_eq_true, if_true, obs]
-  · simp only [bisectRs]
-    split
-    · rfl
-    · split
-      · rfl
-      · have : s > e := by omega
-        simp only [this, if_true, obs]
+/-- … and inside the index-sized range the results are identical, the callback's exception included. -/
+theorem bisect_equiv_exact (unpack : Int → Except Exc Bytes) (sha : Bytes) (s e : Int)
+    (hsha : sha.length = 20 ∨ sha.length = 32)
+    (hun : ∀ i r, unpack i = .ok r → r.length = 20 ∨ r.length = 32)
+    (h0 : 0 ≤ s) (hse : s ≤ e) (he : e < 2 ^ 63) :
+    bisectRs unpack sha s e = bisectPy unpack sha s e := by
+  have eb : Gen.rsBisectBits = 64 := rfl
+  have el : Gen.rsBisectShaLens = [20, 32] := rfl
+  have em : Gen.pyMaxsize = 9223372036854775807 := rfl
+  have hs : inSigned 64 s = true := (inSigned64 _).2 (by omega)
+  have he' : inSigned 64 e = true := (inSigned64 _).2 (by omega)
+  have hmem : sha.length ∈ [20, 32] := by rcases hsha with h | h <;> simp [h]
+  have h1 : ¬ s < 0 := by omega
+  have h2 : ¬ s > e := by omega
+  have h3 : ¬ e > 9223372036854775807 := by omega
+  simp only [bisectRs, bisectPy, eb, el, em, hs, he', hmem, h1, h2, h3, not_true_eq_false, or_self, if_false]
+  exact bisectLoop_eq unpack sha hun _ s e h0 (by omega) (by omega) he (by simp only [bisectFuel]; omega)
 
 /-- The Python loop needs at most `end - start + 1` iterations for ANY integers: the model's loop bound
 is never reached (unless the callback itself says so). -/
@@ -336,75 +291,74 @@ theorem bisect_py_fuel (unpack : Int → Except Exc Bytes) (sha : Bytes) (s e : 
   simp only [bisectPy]
   split
   · simp
-  · rcases bisectLoopPy_fuel unpack sha (bisectFuel s e) s e (by simp only [bisectFuel]; omega) with h | ⟨i, hi⟩
-    · exact h
-    · exact absurd hi (hun i)
+  · split
+    · simp
+    · split
+      · simp
+      · rcases bisectLoopPy_fuel unpack sha (bisectFuel s e) s e (by simp only [bisectFuel]; omega) with h | ⟨i, hi⟩
+        · exact h
+        · exact absurd hi (hun i)
 
 def id20 (b : UInt8) : Bytes := List.replicate 20 b
 
-/-- Non-vacuity: a three-entry table, hit and miss. -/
+/-- Non-vacuity: a three-entry table, hit and miss; the formerly divergent calls on the repaired models
+(negative start: `ValueError` in both; bounds of 2^30, 2^31, 2^62: the index from both; 2^63: failure
+in both). -/
 example : bisectRs (unpackStrict [id20 1, id20 5, id20 9]) (id20 9) 0 2 = .ok (some 2) ∧
     bisectPy (unpackStrict [id20 1, id20 5, id20 9]) (id20 9) 0 2 = .ok (some 2) ∧
-    bisectPy (unpackStrict [id20 1, id20 5, id20 9]) (id20 4) 0 2 = .ok none := by decide
+    bisectPy (unpackStrict [id20 1, id20 5, id20 9]) (id20 4) 0 2 = .ok none ∧
+    bisectPy (unpackStrict [id20 7]) (id20 7) (-1) 0 = .error .value ∧
+    bisectRs (unpackStrict [id20 7]) (id20 7) (-1) 0 = .error .value ∧
+    bisectRs (unpackSynth (2 ^ 40) 20) (beBytes 20 (2 ^ 40 + 2 ^ 30)) (2 ^ 30) (2 ^ 30) = .ok (some (2 ^ 30)) ∧
+    bisectRs (unpackSynth (2 ^ 40) 20) (beBytes 20 (2 ^ 40 + 5)) 0 (2 ^ 31) = .ok (some 5) ∧
+    bisectRs (unpackSynth (2 ^ 40) 20) (beBytes 20 (2 ^ 40 + 2 ^ 62)) 0 (2 ^ 63 - 1) = .ok (some (2 ^ 62)) ∧
+    bisectPy (unpackSynth (2 ^ 40) 20) (beBytes 20 (2 ^ 40 + 2 ^ 62)) 0 (2 ^ 63 - 1) = .ok (some (2 ^ 62)) ∧
+    bisectRs (unpackSynth (2 ^ 40) 20) (beBytes 20 (2 ^ 63)) (2 ^ 63 - 1) (2 ^ 63 - 1) = .ok none ∧
+    bisectPy (unpackSynth (2 ^ 40) 20) (beBytes 20 (2 ^ 63)) (2 ^ 63 - 1) (2 ^ 63 - 1) = .ok none ∧
+    bisectPy (unpackSynth (2 ^ 40) 20) (beBytes 20 5) 0 (2 ^ 63) = .error .overflow ∧
+    bisectRs (unpackSynth (2 ^ 40) 20) (beBytes 20 5) 0 (2 ^ 63) = .error .overflow := by decide +kernel
 
-/-- **Negation witnesses**: (1) `start=-1, end=0`: Python probes ⌊-1/2⌋ = −1 (IndexError from a strict
-table; the LAST entry with Python list indexing, so a present id is reported absent), Rust probes
-trunc(−1/2) = 0 and finds it; (2) `start=end=2^30` on a table defined everywhere: Python finds it, the Rust
-`i32` sum overflows (panic in debug builds); (3) `end=2^31`: `OverflowError` at the call boundary. -/
-theorem bisect_divergence_witnesses :
-    bisectPy (unpackStrict [id20 7]) (id20 7) (-1) 0 = .error .index ∧
-    bisectRs (unpackStrict [id20 7]) (id20 7) (-1) 0 = .ok (some 0) ∧
-    bisectPy (unpackWrap [id20 1, id20 5]) (id20 1) (-1) 0 = .ok none ∧
-    bisectRs (unpackWrap [id20 1, id20 5]) (id20 1) (-1) 0 = .ok (some 0) ∧
-    bisectPy (unpackSynth (2 ^ 40) 20) (beBytes 20 (2 ^ 40 + 2 ^ 30)) (2 ^ 30) (2 ^ 30) = .ok (some (2 ^ 30)) ∧
-    bisectRs (unpackSynth (2 ^ 40) 20) (beBytes 20 (2 ^ 40 + 2 ^ 30)) (2 ^ 30) (2 ^ 30) = .error .panic ∧
-    bisectRs (unpackSynth (2 ^ 40) 20) (beBytes 20 (2 ^ 40 + 5)) 0 (2 ^ 31) = .error .overflow := by
-  decide
-
-theorem bisect_equiv_counterexample : ¬ BisectEquivStatement := by
-  intro h
-  have := h (unpackStrict [id20 7]) (id20 7) (-1) 0 (Or.inl (by decide))
-  revert this
+/-- **Regression witnesses (fixed)** on the pre-repair models: (1) `start=-1, end=0`: Python probed
+⌊-1/2⌋ = −1 (IndexError from a strict table; the LAST entry with Python list indexing, so a present id was
+reported absent), Rust probed trunc(−1/2) = 0 and found it; (2) `start=end=2^30`: Python found it, the Rust
+`i32` sum overflowed (panic in debug builds); (3) `end=2^31`: `OverflowError` at the call boundary. -/
+theorem bisect_old_divergence_witnesses :
+    bisectPyOld (unpackStrict [id20 7]) (id20 7) (-1) 0 = .error .index ∧
+    bisectRsOld (unpackStrict [id20 7]) (id20 7) (-1) 0 = .ok (some 0) ∧
+    bisectPyOld (unpackWrap [id20 1, id20 5]) (id20 1) (-1) 0 = .ok none ∧
+    bisectRsOld (unpackWrap [id20 1, id20 5]) (id20 1) (-1) 0 = .ok (some 0) ∧
+    bisectPyOld (unpackSynth (2 ^ 40) 20) (beBytes 20 (2 ^ 40 + 2 ^ 30)) (2 ^ 30) (2 ^ 30) = .ok (some (2 ^ 30)) ∧
+    bisectRsOld (unpackSynth (2 ^ 40) 20) (beBytes 20 (2 ^ 40 + 2 ^ 30)) (2 ^ 30) (2 ^ 30) = .error .panic ∧
+    bisectRsOld (unpackSynth (2 ^ 40) 20) (beBytes 20 (2 ^ 40 + 5)) 0 (2 ^ 31) = .error .overflow := by
   decide
 
 /-! ## 6. _merge_entries, _is_tree -/
 
-def MergeEntriesEquivStatement : Prop :=
-  ∀ (path : Bytes) (t1 t2 : Option (List TreeEntry)),
-    obs (mergeEntriesRs path t1 t2) = obs (mergeEntriesPy path t1 t2)
-
-/-- **_merge_entries: Rust ≡ Python** for every pair of trees (or `None`) with 32-bit modes, any names
-not starting with `/` (NUL, inner `/`, prefixes, twins allowed) and a path that is empty or does not end
-with `/` — the two places where `posixpath.join` is not plain concatenation. -/
-theorem merge_entries_equiv_partial (path : Bytes) (t1 t2 : Option (List TreeEntry)) (hp : pathOk path)
-    (hm : ∀ t es, (t = t1 ∨ t = t2) → t = some es → modesU32 es)
-    (hn : ∀ t es, (t = t1 ∨ t = t2) → t = some es → namesRelative es) :
+/-- **_merge_entries: Rust ≡ Python for EVERY path and EVERY pair of trees** (or `None`): any names (leading
+`/`, NUL, prefixes, twins), any path (trailing `/` included), any integer modes — identical results,
+the `TypeError` for a mode outside 0 … 2^32-1 included. -/
+theorem merge_entries_equiv (path : Bytes) (t1 t2 : Option (List TreeEntry)) :
     mergeEntriesRs path t1 t2 = mergeEntriesPy path t1 t2 := by
-  simp only [mergeEntriesRs, mergeEntriesPy,
-    treeEntries_eq path hp t1 (fun es h => hm t1 es (Or.inl rfl) h) (fun es h => hn t1 es (Or.inl rfl) h),
-    treeEntries_eq path hp t2 (fun es h => hm t2 es (Or.inr rfl) h) (fun es h => hn t2 es (Or.inr rfl) h),
-    mergeLoop_eq]
+  simp only [mergeEntriesRs, mergeEntriesPy, treeEntries_eq, mergeLoop_eq]
 
-/-- Non-vacuity: two overlapping trees under a path. -/
+/-- Non-vacuity: two overlapping trees under a path; a name `/a` and a path `p/` join the same way now. -/
 example : mergeEntriesRs [112] (some [⟨[98], 33188, H40⟩, ⟨[97], 16384, H40⟩]) (some [⟨[98], 33188, H40⟩, ⟨[99], 33188, H40⟩])
     = .ok [(some ⟨[112, 47, 97], 16384, H40⟩, none), (some ⟨[112, 47, 98], 33188, H40⟩, some ⟨[112, 47, 98], 33188, H40⟩),
-           (none, some ⟨[112, 47, 99], 33188, H40⟩)] := by decide
+           (none, some ⟨[112, 47, 99], 33188, H40⟩)] ∧
+    mergeEntriesPy [112] (some [⟨[47, 97], 33188, H40⟩]) none = .ok [(some ⟨[112, 47, 47, 97], 33188, H40⟩, none)] ∧
+    mergeEntriesPy [112, 47] (some [⟨[97], 33188, H40⟩]) none = .ok [(some ⟨[112, 47, 47, 97], 33188, H40⟩, none)] ∧
+    mergeEntriesPy [112] (some [⟨[97], 4294967296, H40⟩]) none = .error .type := by decide
 
-/-- **Negation witnesses**: name `/a` under path `p` (Python `/a`, Rust `p//a`); path `p/` (Python `p/a`,
-Rust `p//a`); mode 2^32 (Python returns, Rust `TypeError`). -/
-theorem merge_entries_divergence_witnesses :
-    mergeEntriesPy [112] (some [⟨[47, 97], 33188, H40⟩]) none = .ok [(some ⟨[47, 97], 33188, H40⟩, none)] ∧
+/-- **Regression witnesses (fixed)** on the pre-repair Python model (the Rust side of `_merge_entries` did
+not change): name `/a` under path `p` (Python `/a`, Rust `p//a`); path `p/` (Python `p/a`, Rust `p//a`);
+mode 2^32 (Python returned, Rust `TypeError`). -/
+theorem merge_entries_old_divergence_witnesses :
+    mergeEntriesPyOld [112] (some [⟨[47, 97], 33188, H40⟩]) none = .ok [(some ⟨[47, 97], 33188, H40⟩, none)] ∧
     mergeEntriesRs [112] (some [⟨[47, 97], 33188, H40⟩]) none = .ok [(some ⟨[112, 47, 47, 97], 33188, H40⟩, none)] ∧
-    mergeEntriesPy [112, 47] (some [⟨[97], 33188, H40⟩]) none = .ok [(some ⟨[112, 47, 97], 33188, H40⟩, none)] ∧
+    mergeEntriesPyOld [112, 47] (some [⟨[97], 33188, H40⟩]) none = .ok [(some ⟨[112, 47, 97], 33188, H40⟩, none)] ∧
     mergeEntriesRs [112, 47] (some [⟨[97], 33188, H40⟩]) none = .ok [(some ⟨[112, 47, 47, 97], 33188, H40⟩, none)] ∧
-    (obs (mergeEntriesPy [112] (some [⟨[97], 4294967296, H40⟩]) none)).isSome ∧
+    (obs (mergeEntriesPyOld [112] (some [⟨[97], 4294967296, H40⟩]) none)).isSome ∧
     mergeEntriesRs [112] (some [⟨[97], 4294967296, H40⟩]) none = .error .type := by
-  decide
-
-theorem merge_entries_equiv_counterexample : ¬ MergeEntriesEquivStatement := by
-  intro h
-  have := h [112] (some [⟨[47, 97], 33188, H40⟩]) none
-  revert this
   decide
 
 /-- **_is_tree: Rust ≡ Python** for `None`, a missing mode and EVERY integer mode (outside 0 … 2^32-1 both
